@@ -1091,3 +1091,31 @@ def inlined_constants_are_literals(ctx):
         bad is None,
         (f"for {bad[0]} ({bad[1]!r}) the generated code contains `{bad[2]}`, which is not a literal for that value: a function with such a Literal fails with SyntaxError / NameError at its first call (or compares against another value)" if bad else ""),
     )
+
+
+# ---------------------------------------------------------------------------------------- key functions are not memoised
+def key_functions_are_not_memoised(ctx):
+    """The functions that turn an argument into its table key are computed per call: a value-keyed memo (lru_cache)
+    hands equal-but-different arguments (True / 1.0, a named tuple / the equal tuple) the key of the first one seen."""
+    from .c14 import get_callgraph_for
+
+    repo = ctx.repo
+    sub = A.subtler_fn(repo)
+    cg = get_callgraph_for(ctx)
+    clo = cg.closure([sub])
+    n = 0
+    bad = None
+    for f in clo:
+        n += 1
+        ctx.touch(f)
+        for d in f.node.decorator_list:
+            name = dotted(d.func) if isinstance(d, ast.Call) else dotted(d)
+            if name and name.split(".")[-1] in ("lru_cache", "cache", "cached"):
+                bad = (f, d)
+    ctx.ob(
+        f"{sub.key}:not-memoised",
+        bad[0].loc(bad[1]) if bad else sub.loc(),
+        f"the type-valued key function and what it calls ({n} functions) are not memoised by argument value",
+        bad is None,
+        (f"`{bad[0].name}` is wrapped in `{short(bad[1], 30)}`: the memo is keyed by equality and hash of the argument, so an argument is given the key of an equal argument of another class seen earlier - the outcome of a call depends on earlier calls" if bad else ""),
+    )
